@@ -2,6 +2,13 @@ HOOK_COMMITS = ["d197d80"]
 NOTES = "All checks are generated-input search (proptest choice sequences, exhaustive small-domain enumeration) against explicit oracles; see DESIGN.md. Exit 2 = inconclusive (build failure / watchdog), never a violation."
 NOT_CLAIMED = {}
 CLAIMED = {
+ "C17": {
+  "technique": "property-based testing with a harness-defined list matcher (query log + named sets) and model-based histories",
+  "text": "Exploration: `lhs in $name` over fields, index paths, map-each paths and call results with lists registered for Int/Ip/Bytes in generated orders and kinds (harness set matcher / AlwaysList / NeverList): results equal the model lookup and the matcher's query log equals the predicted (name, value) sequence; generated valid/invalid list names x registered-or-not decide acceptance exactly; histories of mutate / clear / JSON round trip (str, slice, reader) / clone / execute against a model of the matcher state.",
+  "note": "Trusts the harness matcher's own lookup; query multiplicity behind short-circuit logic is compared as a set.",
+  "ref": "DESIGN.md section 3, C17",
+ },
+
  "C06": {
   "technique": "property-based round trips (independent printer -> parser -> AST JSON / boundary probes), exhaustive per-byte and per-prefix tables, reference decoders for hostile literal texts",
   "text": "Exploration: every literal kind is rendered from a value in every documented form, embedded in every literal position followed by each kind of next token, and read back from the AST (CIDR / ranges also probed by execution at their boundaries); all 256 bytes x 6 escape forms and every CIDR prefix length are enumerated; curated malformed classes must be rejected in every position; random hostile quoted / hex-pair texts are judged by reference decoders of the documented grammar (accepted exactly when well-formed, with the same value).",
